@@ -26,6 +26,11 @@ import SigpyVerif.Model.C03Base
   Everything is generic in the scalar type: the driver runs it over Gaussian rationals `GRat`,
   the theorems in `Props/C03.lean` are proved for every commutative ring (hence for ℂ and `GRat`).
 
+  Since the deepening round the DRIVER no longer runs the `*App` functions of this file: it runs the translator-generated
+  `_apply` bodies and guards (`Gen/LinopApply.lean` on the numpy primitives of `Model/C03Np.lean`, wired in `Model/C03Gen.lean`);
+  this file is the reference model the generated code is proved against in `Props/C03Gen.lean` (`Op.call` = generated
+  `Linop.apply`, `composeApp` = generated `Compose._apply`, the block theorems restated for the generated bodies).
+
   Abstractions (validated by the correspondence check, not proved): dense row-major layout of numpy
   arrays; `_check_ishape/_check_oshape` are modelled EXACTLY (`zipGuard`: `zip` stops at the shorter
   shape), and the correspondence sends inputs of a different rank through chains of `Identity`/`Reshape`/
